@@ -15,7 +15,7 @@ def sh(cmd, env=None, timeout=3600):
 
 
 def one(sid, plist, tier, seed):
-    wt = f"/tmp/mutwt_{sid}"
+    wt = f"/tmp/mutwt_{sid}_{os.getpid()}"
     sh(f"git -C /repo worktree remove --force {wt}; rm -rf {wt}")
     rc, out = sh(f"git -C /repo worktree add -q --detach {wt} HEAD")
     res = {}
@@ -26,7 +26,7 @@ def one(sid, plist, tier, seed):
         rc, out = sh(f"git -C {wt} apply {V}/seeded/{sid}/patch.diff")
         if rc != 0:
             return sid, {"error": "PATCH DOES NOT APPLY " + out[-200:]}
-        env = dict(os.environ, VERIF_REPO=wt, VERIF_EVID=f"{V}/build/mut_evid/{sid}")
+        env = dict(os.environ, VERIF_REPO=wt, VERIF_EVID=f"{V}/build/mut_evid/{sid}_{os.getpid()}")
         if seed is not None:
             env["VERIF_SEED"] = str(seed)
         for p in plist:
